@@ -8,7 +8,7 @@ from itertools import chain
 from numpy import nan
 from typing import Iterator, Iterable, Callable, Protocol, runtime_checkable
 
-from .._numpy_utils import Array, as_array, make_array
+from .._numpy_utils import Array, as_array, make_array, subtract
 from .._field import Field
 from ._cell_type import CellType
 
@@ -196,7 +196,7 @@ def _subtract(fields1: protocols.MeshFields, fields2: protocols.MeshFields) -> M
     for field1, field2 in point_field_matches.matches:
         if field1.values.shape != field2.values.shape:
             raise RuntimeError("Cannot subtract arrays with differing shape")
-        point_data[field1.name] = field1.values - field2.values
+        point_data[field1.name] = subtract(field1.values, field2.values)
     for field1 in point_field_matches.orphans_in_source:
         point_data[field1.name] = make_array(field1.values, dtype=type(nan))
         point_data[field1.name].fill(nan)
@@ -212,7 +212,7 @@ def _subtract(fields1: protocols.MeshFields, fields2: protocols.MeshFields) -> M
         name, cell_type = split_annotation(field1.name)
         if name not in cell_data:
             cell_data[name] = {}
-        cell_data[name][CellType.from_name(cell_type)] = field1.values - field2.values
+        cell_data[name][CellType.from_name(cell_type)] = subtract(field1.values, field2.values)
     for field1 in cell_field_matches.orphans_in_source:
         name, cell_type = split_annotation(field1.name)
         if name not in cell_data:
